@@ -66,6 +66,28 @@ template<class Graph> struct Comp {
         emit(j.str());
     }
 
+    // ForestIndex on families with more than 2^8 / 2^16 vertices or edges: the edge list is implied by (family, a, b)
+    //   path a: 0-1-...-(a-1);  star a: 0-i, i = 1..a-1;  cycle a;  twocycles a: two disjoint cycles of length a;
+    //   matching a b: a vertices, b disjoint edges (2i, 2i+1)        edges are numbered 1.. in the order listed here
+    static void forest_family(const InGraph &in, const std::string &fam, long a, long b) {
+        InGraph syn; syn.id = in.id; syn.den = 1;
+        auto E = [&](long u, long v) { InEdge e; e.u = (int) u; e.v = (int) v; e.w = 1; syn.edges.push_back(e); };
+        if (fam == "path") { syn.n = (int) a; for (long i = 0; i + 1 < a; i++) E(i, i + 1); }
+        else if (fam == "star") { syn.n = (int) a; for (long i = 1; i < a; i++) E(0, i); }
+        else if (fam == "cycle") { syn.n = (int) a; for (long i = 0; i < a; i++) E(i, (i + 1) % a); }
+        else if (fam == "twocycles") { syn.n = (int) (2 * a); for (long i = 0; i < a; i++) E(i, (i + 1) % a); for (long i = 0; i < a; i++) E(a + i, a + (i + 1) % a); }
+        else { syn.n = (int) a; for (long i = 0; i < b; i++) E(2 * i, 2 * i + 1); }
+        Built<Graph> bb; build(syn, bb);
+        parmcb::ForestIndex<Graph> fi(bb.g);
+        size_t m = syn.edges.size();
+        std::vector<long> idx, rev, onf;
+        for (size_t i = 0; i < m; i++) { std::size_t raw = fi(bb.edge_of[i]); idx.push_back(raw > 100000000 ? -1 : (long) raw); onf.push_back(fi.is_on_forest(bb.edge_of[i]) ? 1 : 0); }
+        for (size_t i = 0; i < m; i++) rev.push_back(bb.idx(fi(i)));
+        std::size_t kraw = fi.weak_connected_components(), csd = fi.cycle_space_dimension();
+        emit(J().s("e", "ForestFam").s("fam", fam).i("id", in.id).i("a", a).i("b", b).i("n", syn.n).arr("idx", idx).arr("rev", rev).arr("onforest", onf)
+                 .i("k", kraw > 100000000 ? -1 : (long) kraw).i("csd", csd > 100000000 ? -1 : (long) csd).str());
+    }
+
     // families too large to log edge by edge (degrees beyond 2^8 / 2^16): the graph is described by (family, a, b) and TLC
     // decides the clauses with the family's closed form (Components!FvsFamViol)
     //   wheel a   : hub 0, rim 1..a (a cycle), a spokes
@@ -151,7 +173,7 @@ template<class Graph> void run_mode(const std::string &mode, const InGraph &g, c
     try {
         std::string fam; long fa = 0, fb = 0;
         for (auto &t : g.extra) { auto kv = split(t, '='); if (kv.size() == 2) { if (kv[0] == "fam") fam = kv[1]; else if (kv[0] == "a") fa = atol(kv[1].c_str()); else if (kv[0] == "b") fb = atol(kv[1].c_str()); } }
-        if (!fam.empty()) { if (mode == "fvs") Comp<Graph>::fvs_family(g, fam, fa, fb); return; }
+        if (!fam.empty()) { if (mode == "fvs") Comp<Graph>::fvs_family(g, fam, fa, fb); else if (mode == "forest") Comp<Graph>::forest_family(g, fam, fa, fb); return; }
         if (mode == "forest") Comp<Graph>::forest(g, wt);
         else if (mode == "fvs") Comp<Graph>::fvs(g, wt);
         else if (mode == "spt") Comp<Graph>::spt(g, wt);
